@@ -22,7 +22,7 @@ type c09Params struct {
 	K      connCfg
 	Adv    string // silent | stallHeader | stallPayload | flood | halfclose | echo4900 | echo5100 | dataThenSilent
 	AdvK   int
-	State  string // idle | reader | halfread | closeread | closeread-data | writer | ping
+	State  string // idle | reader | halfread | closeread | closeread-data | closeread-twice | writer | ping | netconn-deadline-moved | ...
 	Action string // Close | CloseNow
 }
 
@@ -90,6 +90,15 @@ func c09Setup(prm c09Params) func(c *fw.Ctx, name string) explore.Setup {
 						conn.Read(rctx)
 						cancel()
 					}
+					ctx := conn.CloseRead(bg)
+					w.GoHarness("ctxwaiter", true, func() {
+						vs.Recv(ctx.Done())
+						st.ctxDoneAt = w.Now
+						st.ctxDone = true
+					})
+				case "closeread-twice":
+					// CloseRead is idempotent: the context of a later call is cancelled as well
+					conn.CloseRead(bg)
 					ctx := conn.CloseRead(bg)
 					w.GoHarness("ctxwaiter", true, func() {
 						vs.Recv(ctx.Done())
@@ -176,8 +185,26 @@ func c09Setup(prm c09Params) func(c *fw.Ctx, name string) explore.Setup {
 					blocked("writer", func() { conn.Write(bg, websocket.MessageBinary, fill(0xA7, 200)) })
 				case "ping":
 					blocked("pinger", func() { conn.Ping(bg) })
+				case "netconn-deadline-moved":
+					// a NetConn read deadline is moved forward at the very instant it expires
+					// (no Read active); a Read issued afterwards blocks and must return once
+					// the connection is closed
+					nc := websocket.NetConn(bg, conn, websocket.MessageBinary)
+					nc.SetReadDeadline(vtime.Now().Add(time.Second))
+					w.GoHarness("mover", false, func() {
+						vtime.Sleep(time.Second)
+						nc.SetReadDeadline(vtime.Now().Add(30 * time.Second))
+					})
+					blocked("ncreader", func() {
+						vtime.Sleep(2 * time.Second)
+						var b [8]byte
+						nc.Read(b[:])
+					})
 				}
 				w.GoHarness("closer", true, func() {
+					if prm.State == "netconn-deadline-moved" {
+						vtime.Sleep(3 * time.Second)
+					}
 					st.t0 = w.Now
 					if prm.Action == "Close" {
 						st.actErr = conn.Close(websocket.StatusNormalClosure, "")
@@ -251,7 +278,7 @@ func c09Scenarios(tier string) []scenario {
 	if tier == "thorough" {
 		advs = append(advs, adv{"stallHeader", 2}, adv{"stallHeader", 3}, adv{"stallHeader", 5}, adv{"stallPayload", 1}, adv{"stallPayload", 50}, adv{"stallPayload", 99})
 	}
-	states := []string{"idle", "reader", "halfread", "halfread-reread", "closeread", "closeread-data", "peerclosed-closeread", "ctxclosed-closeread", "writer", "ping"}
+	states := []string{"idle", "reader", "halfread", "halfread-reread", "closeread", "closeread-data", "closeread-twice", "peerclosed-closeread", "ctxclosed-closeread", "writer", "ping", "netconn-deadline-moved"}
 	for _, k := range []connCfg{{Client: false}, {Client: true}} {
 		for _, a := range advs {
 			for _, s := range states {
